@@ -447,7 +447,22 @@ func runC04(e *Env) {
 				err = sender.Flush()
 			case 5:
 				// Malloc the frame, insert the middle part with WriteDirect
-				if n >= 3 {
+				if n >= 3 && e.Bool() {
+					// the head through a small copying write, the tail malloc'ed, the middle spliced in
+					h, t := n/3, n/3
+					if h > 200 {
+						h = 200
+					}
+					mid := n - h - t
+					if e.Bool() {
+						sender.WriteString(string(d[:h]))
+					} else {
+						sender.WriteBinary(d[:h])
+					}
+					buf, _ := sender.Malloc(t)
+					copy(buf, d[h+mid:])
+					sender.WriteDirect(append([]byte(nil), d[h:h+mid]...), t)
+				} else if n >= 3 {
 					h, t := n/3, n/3
 					mid := n - h - t
 					buf, _ := sender.Malloc(h + t)
@@ -460,8 +475,28 @@ func runC04(e *Env) {
 				err = sender.Flush()
 			case 6:
 				lb := NewLinkBuffer()
-				buf, _ := lb.Malloc(n)
-				copy(buf, d)
+				if e.Bool() {
+					buf, _ := lb.Malloc(n)
+					copy(buf, d)
+				} else {
+					// a producer that only used the copying writers, in small pieces
+					for off := 0; off < n; {
+						m := 1 + e.Intn(300)
+						if m > n-off {
+							m = n - off
+						}
+						switch e.Intn(3) {
+						case 0:
+							lb.WriteBinary(d[off : off+m])
+						case 1:
+							lb.WriteString(string(d[off : off+m]))
+						case 2:
+							lb.WriteByte(d[off])
+							m = 1
+						}
+						off += m
+					}
+				}
 				if e.Bool() {
 					lb.Flush() // a producer may hand over a buffer it has already submitted
 				}
